@@ -260,6 +260,46 @@ def install(cobyqa):
         return __init__
     wrap(P.LinearConstraints, "__init__", mk_lcs_init)
 
+    # ---- fault seam: the allocator hands out dirty memory --------------------------------------
+    # np.empty returns whatever the heap holds.  In a deterministic simulation that is a source of
+    # nondeterminism the result must not depend on, so it goes behind a seam: with the knob
+    # `poison_empty` every float array obtained from np.empty / np.empty_like inside cobyqa is
+    # pre-filled with a seeded garbage value (NaN, +-1e300, +-1).  Correct code writes every element
+    # before reading it, so the run must be bit-identical with and without the knob.
+    try:
+        import types as _types
+        prox = _types.SimpleNamespace(**vars(np))
+        real_empty, real_empty_like = np.empty, np.empty_like
+        POISON = [float("nan"), 1e300, -1.0, 1.0, -1e300]
+
+        def _poison(arr):
+            ctx = cur()
+            pat = getattr(ctx, "poison", None) if ctx is not None else None
+            if pat is not None and isinstance(arr, np.ndarray) and arr.dtype.kind == "f" and arr.size:
+                ctx.poison_calls += 1
+                arr.fill(POISON[(pat + ctx.poison_calls) % len(POISON)])
+                ctx.fired["poison_empty"] = ctx.fired.get("poison_empty", 0) + 1
+            return arr
+
+        def empty(*a, **k):
+            return _poison(real_empty(*a, **k))
+
+        def empty_like(*a, **k):
+            return _poison(real_empty_like(*a, **k))
+
+        prox.empty = empty
+        prox.empty_like = empty_like
+        import cobyqa.subsolvers.optim as SO
+        import cobyqa.subsolvers.geometry as SG
+        import cobyqa.utils.math as UM
+        for mod in (P, M, F, MAIN, SO, SG, UM):
+            if getattr(mod, "np", None) is np:
+                mod.np = prox
+            else:
+                MISSING.append("%s.np" % mod.__name__)
+    except Exception as e:
+        MISSING.append("np.empty seam: %s" % e)
+
     # ---- Problem ------------------------------------------------------------
     def mk_pb_init(orig):
         def __init__(self, *a, **k):
